@@ -7,6 +7,7 @@
 import PyTough.Proofs.GridSpec
 import PyTough.Proofs.GridEmbed
 import PyTough.Proofs.GridCheck
+import PyTough.Proofs.GridInvMoreDelete
 namespace Props.C08
 open Py Model Model.Grid Model.Grid.World
 
@@ -283,5 +284,226 @@ theorem connection_index_correct {w : World} (hI : Grid.Inv w) (k : CName) :
     obtain ⟨i, hi⟩ := Proofs.Grid.indexOf?_of_mem hc.1
     simp only [hi]
     exact ⟨c, Proofs.Grid.indexOf?_some hi, hc.2⟩
+
+/-! ### which operations need a precondition at all (round 3)
+
+`pre` (Model/GridInv.lean) is `true` for eight operations; for the others it excludes argument
+misuse and the known findings F1–F3.  Below: the eight are total; `reorder`'s precondition is
+weakened to what the code does not guard itself (`preTotal`); what is left is listed in `needsPre`. -/
+
+/-- the operations that keep the grid consistent for ANY argument: `rename_rocktype` (raises on an
+    unknown or clashing name, nothing changed), `clean_rocktypes`, `sort_rocktypes`, `delete_block`
+    and `delete_connection` (unknown name: no-op), `demote_block` (unknown name: TypeError after
+    the earlier names were moved), `minc` (any parameters, any block selection; raises part-way on
+    a name clash), `add_block` of a block that is already the grid's -/
+def unconditional : Op → Bool
+  | .renameRocktype _ _ | .cleanRocktypes | .sortRocktypes | .deleteBlock _ | .demoteBlock _
+  | .deleteConnection _ _ | .minc _ | .againBlock _ => true
+  | _ => false
+
+/-- **Total step** for the eight unconditional operations: no hypothesis on the arguments. -/
+theorem inv_step_unconditional {w : World} (hI : Grid.Inv w) (op : Op) (h : unconditional op = true) :
+    Grid.Inv (step w op).w := by
+  apply inv_step hI op
+  cases op <;> first | rfl | cases h
+
+example : unconditional (.deleteBlock ['Z']) = true ∧ unconditional (.minc ⟨[1, 3], [1], [1, 1], [], 100⟩) = true := by decide
+
+/-- any history made of those operations only, from any consistent grid, needs no precondition -/
+theorem consistent_after_unconditional_edits {w : World} (hI : Grid.Inv w) (ops : List Op)
+    (h : ∀ op ∈ ops, unconditional op = true) : Consistent (run w ops) := by
+  suffices Grid.Inv (run w ops) from consistent_of_inv this
+  induction ops generalizing w with
+  | nil => exact hI
+  | cons op r ih =>
+    exact ih (inv_step_unconditional hI op (h op (List.mem_cons_self ..))) (fun o ho => h o (List.mem_cons_of_mem _ ho))
+
+example : (∀ op ∈ [Op.deleteBlock Examples.B, .deleteConnection Examples.A Examples.C, .demoteBlock [Examples.A, ['?']],
+      .renameRocktype Examples.r1 Examples.r1, .cleanRocktypes], unconditional op = true) ∧
+    Grid.Inv Examples.w0 := ⟨by decide, (checkInv_iff _).mp (by decide)⟩
+
+/-- `pre`, with the clause for `reorder` reduced to what the code does not guard itself: a block
+    name that is not in the grid raises KeyError before anything is touched, a connection pair that
+    is in the grid in neither orientation raises (connections reversed so far stay reversed,
+    consistently; the lists are not reassigned).  What remains excluded for `reorder` is a list of
+    *known* names that is not a permutation (a repeated or omitted name: the code silently
+    reassigns the list). -/
+def preTotal (w : World) : Op → Bool
+  | .reorder bs cs =>
+    (bs.isEmpty || (lookupAll w.block bs).isNone || (bs.map (dget w.block)).isPerm (w.blocklist.map some)) &&
+    (cs.isEmpty || cs.any (fun k => (resolveCon w k).isNone) || (cs.map (resolveCon w)).isPerm (w.connectionlist.map some))
+  | op => pre w op
+
+/-- the operations whose `preTotal` is not constantly true, i.e. that still need a precondition:
+    * `addRocktype`, `readdRocktype` — F2 (name registered and in use);
+    * `deleteRocktype` — F3 (in use);
+    * `addBlock`, `readdBlock`, `addBlockFresh` — F1 (name has connections), and the block's rock
+      type must be a registered object (the code does not check: the block is added with a foreign
+      rock type, clause `rock_registered` false);
+    * `addConnection`, `readdConnection` — both blocks must be the grid's objects and different (the
+      code does not check: `con_joins_grid_blocks` false);
+    * `reorder` — all names known but not a permutation;
+    * `renameBlocks` — the map is not one-to-one on the current names (excluded by the property text);
+    * `addGrid`, `embed`, `embedStandalone` — second grid well formed, no common block name (F1),
+      no common rock-type name in use (F2), host/sub blocks exist. -/
+def needsPre (op : Op) : Bool := !unconditional op
+
+theorem preTotal_of_unconditional (w : World) (op : Op) (h : needsPre op = false) : preTotal w op = true := by
+  cases op <;> first | rfl | cases h
+
+/-- `preTotal` is weaker than `pre` -/
+theorem preTotal_of_pre {w : World} {op : Op} (h : pre w op = true) : preTotal w op = true := by
+  cases op with
+  | reorder bs cs =>
+    simp only [pre, Bool.and_eq_true, Bool.or_eq_true] at h
+    simp only [preTotal, Bool.and_eq_true, Bool.or_eq_true]
+    exact ⟨h.1.elim (fun a => Or.inl (Or.inl a)) Or.inr, h.2.elim (fun a => Or.inl (Or.inl a)) Or.inr⟩
+  | _ => exact h
+
+/-- **inv_step, total in the guarded arguments.** -/
+theorem inv_step_total {w : World} (hI : Grid.Inv w) (op : Op) (hpre : preTotal w op = true) :
+    Grid.Inv (step w op).w := by
+  cases op with
+  | reorder bs cs =>
+    simp only [preTotal, Bool.and_eq_true, Bool.or_eq_true, List.isPerm_iff, Option.isNone_iff_eq_none,
+      List.any_eq_true] at hpre
+    simp only [step, Proofs.Grid.ofR_w]
+    refine Proofs.Grid.reorder_inv_total hI bs cs ?_ ?_
+    · rcases hpre.1 with (a | a) | a
+      · exact Or.inl a
+      · exact Or.inr (Or.inl a)
+      · exact Or.inr (Or.inr a)
+    · rcases hpre.2 with (a | a) | a
+      · exact Or.inl a
+      · exact Or.inr (Or.inl a)
+      · exact Or.inr (Or.inr a)
+  | _ => exact inv_step hI _ hpre
+
+-- `reorder` with an unknown block name, and with an unknown connection pair after a reversal:
+-- outside `pre`, inside `preTotal`
+example : pre Examples.w0 (.reorder [Examples.A, ['?']] []) = false ∧
+    preTotal Examples.w0 (.reorder [Examples.A, ['?']] []) = true := by decide
+example : pre Examples.w0 (.reorder [] [(Examples.B, Examples.A), (Examples.A, Examples.C)]) = false ∧
+    preTotal Examples.w0 (.reorder [] [(Examples.B, Examples.A), (Examples.A, Examples.C)]) = true := by decide
+
+/-- the error branches of `reorder`, explicitly: (a) an unknown block name raises KeyError and the
+    grid is untouched; (b) block names fine, an unknown connection pair: raises, the connection list
+    is the old one, the state is consistent -/
+theorem reorder_unknown_name_raises {w : World} (bs : List Name) (cs : List CName) :
+    (bs.isEmpty = false → lookupAll w.block bs = none →
+      step w (.reorder bs cs) = { w := w, exc := some .keyError }) ∧
+    (Grid.Inv w → (bs.isEmpty = true ∨ (bs.map (dget w.block)).Perm (w.blocklist.map some)) →
+      (∃ k ∈ cs, resolveCon w k = none) →
+      (step w (.reorder bs cs)).exc = some .generic ∧ Grid.Inv (step w (.reorder bs cs)).w ∧
+      (step w (.reorder bs cs)).w.connectionlist = w.connectionlist) := by
+  constructor
+  · intro he hl
+    simp only [step, Proofs.Grid.reorder_unknown_block bs cs he hl]
+    rfl
+  · intro hI hb hc
+    obtain ⟨w', h1, h2, h3, _⟩ := Proofs.Grid.reorder_unresolved_raises hI bs cs hb hc
+    simp only [step, h1]
+    exact ⟨rfl, h2, h3⟩
+
+example : Examples.A :: [['?']] ≠ [] ∧ lookupAll Examples.w0.block [Examples.A, ['?']] = none ∧
+    resolveCon Examples.w0 (Examples.A, Examples.C) = none := by decide
+
+/-- every operation of a history that needs a precondition is applied within `preTotal` -/
+def PreAllTotal : World → List Op → Prop
+  | _, [] => True
+  | w, op :: r => (needsPre op = true → preTotal w op = true) ∧ PreAllTotal (step w op).w r
+
+instance instDecPreAllTotal : (w : World) → (ops : List Op) → Decidable (PreAllTotal w ops)
+  | _, [] => isTrue trivial
+  | w, op :: r =>
+    have := instDecPreAllTotal (step w op).w r
+    show Decidable ((needsPre op = true → preTotal w op = true) ∧ PreAllTotal (step w op).w r) from inferInstance
+
+/-- **inv_run, total**: every state reachable that way satisfies the invariant -/
+theorem inv_run_total {w : World} (hI : Grid.Inv w) (ops : List Op) (h : PreAllTotal w ops) : Grid.Inv (run w ops) := by
+  induction ops generalizing w with
+  | nil => exact hI
+  | cons op r ih =>
+    refine ih (inv_step_total hI op ?_) h.2
+    cases hn : needsPre op with
+    | true => exact h.1 hn
+    | false => exact preTotal_of_unconditional w op hn
+
+/-- **the property, with a precondition only where one is needed**: after any history from the
+    empty grid in which the operations of `needsPre` are applied within `preTotal` — every other
+    operation with arbitrary arguments — the grid is consistent. -/
+theorem consistent_after_any_history_total (ops : List Op) (h : PreAllTotal World.empty ops) :
+    Consistent (run World.empty ops) :=
+  consistent_of_inv (inv_run_total inv_empty ops h)
+
+/-- it covers every history the earlier theorem covers -/
+theorem preAllTotal_of_preAll {w : World} {ops : List Op} (h : PreAll w ops) : PreAllTotal w ops := by
+  induction ops generalizing w with
+  | nil => trivial
+  | cons op r ih => exact ⟨fun _ => preTotal_of_pre h.1, ih h.2⟩
+
+-- a history with calls on unknown names (delete, demote, reorder, rename_rocktype) that raise or do nothing
+example : PreAllTotal World.empty (Examples.base ++ [.deleteBlock ['?'], .demoteBlock [Examples.A, ['?']],
+    .reorder [['?']] [], .reorder [] [(Examples.B, Examples.A), (['?'], Examples.A)], .renameRocktype ['?'] Examples.r1,
+    .deleteConnection Examples.C Examples.A]) ∧
+    ¬ PreAll World.empty (Examples.base ++ [.reorder [['?']] []]) := by decide
+
+/-! ### a block's connection record, by names; deleting a block -/
+
+/-- **"each block's record of its connections is exactly the set of connections that mention
+    it"**, in the form a user can evaluate on the public attributes: in every reachable state, for
+    every block `b` of the grid, `k ∈ b.connection_name` iff `k` is a key of `grid.connection` and
+    `b.name` is one of the two names in `k`. -/
+theorem connection_record_by_name (ops : List Op) (h : PreAllTotal World.empty ops) :
+    let w := run World.empty ops
+    ∀ b ∈ w.blocklist, ∀ k : CName,
+      k ∈ (w.bk b).conn ↔ (∃ c, dget w.connection k = some c) ∧ (k.1 = w.bname b ∨ k.2 = w.bname b) := by
+  intro w b hb k
+  have hI : Grid.Inv w := inv_run_total inv_empty ops h
+  exact Proofs.Grid.conn_iff_by_name hI hb k
+
+example : (Examples.w0.bk 1).conn = [(Examples.A, Examples.B), (Examples.B, Examples.C)] := by decide
+
+/-- **Deleting a block deletes exactly its connections.**  On a consistent grid,
+    `delete_block(nm)` of a block `b` in the grid returns normally and
+    * the block list is the old one without `b`, the lookup loses exactly the key `nm`;
+    * the connection list is the old one, in order, without the connections that have `b` as an
+      end; the connection lookup loses exactly the keys in `b`'s record;
+    * every block's record loses exactly those keys; names, rock types, volumes, centres of all
+      block objects, all connection objects and the rock types are untouched;
+    * the grid is consistent.
+    (`nm` not in the grid: nothing happens.) -/
+theorem delete_block_deletes_exactly_its_connections {w : World} (hI : Grid.Inv w) (nm : Name) :
+    let o := step w (.deleteBlock nm)
+    o.exc = none ∧ Consistent o.w ∧
+    match dget w.block nm with
+    | none => o.w = w
+    | some b =>
+      o.w.blocklist = w.blocklist.erase b ∧
+      (∀ n, dget o.w.block n = if nm = n then none else dget w.block n) ∧
+      o.w.connectionlist = w.connectionlist.filter (fun c => (w.cn c).b0 != b && (w.cn c).b1 != b) ∧
+      (∀ k, dget o.w.connection k = if k ∈ (w.bk b).conn then none else dget w.connection k) ∧
+      (∀ x ∈ w.blocklist, ∀ k, k ∈ (o.w.bk x).conn ↔ k ∈ (w.bk x).conn ∧ k ∉ (w.bk b).conn) ∧
+      (∀ x, (o.w.bk x).name = (w.bk x).name ∧ (o.w.bk x).rock = (w.bk x).rock ∧
+            (o.w.bk x).volume = (w.bk x).volume ∧ (o.w.bk x).centre = (w.bk x).centre) ∧
+      o.w.cons = w.cons ∧ o.w.rocks = w.rocks ∧ o.w.rocktypelist = w.rocktypelist ∧ o.w.rocktype = w.rocktype := by
+  intro o
+  cases hd : dget w.block nm with
+  | none =>
+    have ho : o = { w := w } := by
+      show step w (.deleteBlock nm) = _
+      simp only [step, World.deleteBlock, hd]; rfl
+    rw [ho]
+    exact ⟨rfl, consistent_of_inv hI, rfl⟩
+  | some b =>
+    obtain ⟨w', h, hI', a1, a2, a3, a4, a5, a6, a7, a8, a9, a10⟩ := Proofs.Grid.deleteBlock_exact hI hd
+    have ho : o = { w := w' } := by
+      show step w (.deleteBlock nm) = _
+      simp only [step, h]; rfl
+    rw [ho]
+    exact ⟨rfl, consistent_of_inv hI', a5, a6, a8, a9, a10, a7, a1, a2, a3, a4⟩
+
+example : let o := step Examples.w0 (.deleteBlock Examples.B)
+    o.w.blocklist = [0, 2] ∧ o.w.connectionlist = [] ∧ (o.w.bk 0).conn = [] ∧ (o.w.bk 2).conn = [] := by decide
 
 end Props.C08
